@@ -24,3 +24,4 @@ for arg in sys.argv[2:]:
     sys.stdout.flush()
 subprocess.run(["git", "-C", "/repo", "status", "--short"])
 subprocess.run([sys.executable, "/verif/harness/skeleton.py"], stdout=subprocess.DEVNULL)
+subprocess.run([sys.executable, "/verif/harness/lockshape.py"], stdout=subprocess.DEVNULL)
